@@ -58,6 +58,12 @@ def import_gufo(so_path, repo):
 
 
 def exc_class(e):
+    if isinstance(e, Hang):
+        return "HANG"
+    return _exc_class(e)
+
+
+def _exc_class(e):
     """Canonical name of what a call raised; PanicException is not an Exception subclass."""
     n = type(e).__name__
     if n.startswith("Py") and n[2:] in ("SnmpError", "SnmpDecodeError", "SnmpEncodeError", "SnmpAuthError", "NoSuchInstance"):
@@ -125,6 +131,38 @@ class Agent:
         self.stop = True
         self.th.join(timeout=1)
         self.sock.close()
+
+
+class Hang(BaseException):
+    """Raised in the main thread by the watchdog when an API call does not come back."""
+
+
+class watchdog:
+    """`with watchdog(seconds):` - a call that is still running after `seconds` is interrupted with Hang (Python-level
+    spinning and event-loop stalls are interruptible; a call stuck inside native code is caught by the worker's own
+    time limit instead)."""
+
+    def __init__(self, seconds):
+        self.seconds = seconds
+
+    def _fire(self, signum, frame):
+        raise Hang("no return within %.1f s" % self.seconds)
+
+    def __enter__(self):
+        import signal
+        import threading
+        self.armed = threading.current_thread() is threading.main_thread()     # signals exist in the main thread only
+        if self.armed:
+            self.old = signal.signal(signal.SIGALRM, self._fire)
+            signal.setitimer(signal.ITIMER_REAL, self.seconds)
+        return self
+
+    def __exit__(self, *a):
+        import signal
+        if self.armed:
+            signal.setitimer(signal.ITIMER_REAL, 0)
+            signal.signal(signal.SIGALRM, self.old)
+        return False
 
 
 def call(fn, *a, **kw):
